@@ -37,3 +37,45 @@ pub fn shim_le_u64(b: &[u8], lo: usize, hi: usize) -> (r: Result<u64>)
     ensures r is Ok, le_bytes64(r->Ok_0) == b@.subrange(lo as int, hi as int),
         forall|x: u64| le_bytes64(x) == b@.subrange(lo as int, hi as int) ==> x == r->Ok_0
 { unimplemented!() }
+
+// floats: byte images are uninterpreted; assumed: from_le_bytes inverts to_le_bytes bit for bit
+pub uninterp spec fn f32_le(x: f32) -> Seq<u8>;
+pub uninterp spec fn f64_le(x: f64) -> Seq<u8>;
+pub uninterp spec fn f32_from_le(b: Seq<u8>) -> f32;
+pub uninterp spec fn f64_from_le(b: Seq<u8>) -> f64;
+#[verifier::external_body]
+pub proof fn axiom_float_le_roundtrip()
+    ensures forall|x: f32| #[trigger] f32_from_le(f32_le(x)) == x, forall|x: f64| #[trigger] f64_from_le(f64_le(x)) == x,
+        forall|x: f32| (#[trigger] f32_le(x)).len() == 4, forall|x: f64| (#[trigger] f64_le(x)).len() == 8,
+{}
+#[verifier::external_body]
+pub fn shim_f32_from_le_bytes(b: [u8; 4]) -> (r: f32) ensures r == f32_from_le(b@) { f32::from_le_bytes(b) }
+#[verifier::external_body]
+pub fn shim_f64_from_le_bytes(b: [u8; 8]) -> (r: f64) ensures r == f64_from_le(b@) { f64::from_le_bytes(b) }
+pub open spec fn le128(b: Seq<u8>) -> u128 {
+    (b[0] as u128) | (b[1] as u128) << 8 | (b[2] as u128) << 16 | (b[3] as u128) << 24
+    | (b[4] as u128) << 32 | (b[5] as u128) << 40 | (b[6] as u128) << 48 | (b[7] as u128) << 56
+    | (b[8] as u128) << 64 | (b[9] as u128) << 72 | (b[10] as u128) << 80 | (b[11] as u128) << 88
+    | (b[12] as u128) << 96 | (b[13] as u128) << 104 | (b[14] as u128) << 112 | (b[15] as u128) << 120
+}
+#[verifier::external_body]
+pub fn shim_u128_from_le_bytes(b: [u8; 16]) -> (r: u128) ensures r == le128(b@) { u128::from_le_bytes(b) }
+#[verifier::external_body]
+pub fn shim_u32_from_le_bytes(b: [u8; 4]) -> (r: u32) ensures le_bytes32(r) == b@, forall|x: u32| le_bytes32(x) == b@ ==> x == r { u32::from_le_bytes(b) }
+/// `x.to_le_bytes()` for any of the types the crate serialises (method-call form, receiver type resolved by rustc)
+pub trait LeShim: Sized {
+    type Out;
+    spec fn out_view(o: Self::Out) -> Seq<u8>;
+    spec fn le_spec(self) -> Seq<u8>;
+    fn to_le_bytes_shim(self) -> (r: Self::Out) ensures Self::out_view(r) == self.le_spec();
+}
+impl LeShim for u16 { type Out = [u8; 2]; open spec fn out_view(o: [u8; 2]) -> Seq<u8> { o@ } open spec fn le_spec(self) -> Seq<u8> { le_bytes16(self) }
+    #[verifier::external_body] fn to_le_bytes_shim(self) -> (r: [u8; 2]) { self.to_le_bytes() } }
+impl LeShim for u32 { type Out = [u8; 4]; open spec fn out_view(o: [u8; 4]) -> Seq<u8> { o@ } open spec fn le_spec(self) -> Seq<u8> { le_bytes32(self) }
+    #[verifier::external_body] fn to_le_bytes_shim(self) -> (r: [u8; 4]) { self.to_le_bytes() } }
+impl LeShim for u64 { type Out = [u8; 8]; open spec fn out_view(o: [u8; 8]) -> Seq<u8> { o@ } open spec fn le_spec(self) -> Seq<u8> { le_bytes64(self) }
+    #[verifier::external_body] fn to_le_bytes_shim(self) -> (r: [u8; 8]) { self.to_le_bytes() } }
+impl LeShim for f32 { type Out = [u8; 4]; open spec fn out_view(o: [u8; 4]) -> Seq<u8> { o@ } open spec fn le_spec(self) -> Seq<u8> { f32_le(self) }
+    #[verifier::external_body] fn to_le_bytes_shim(self) -> (r: [u8; 4]) { self.to_le_bytes() } }
+impl LeShim for f64 { type Out = [u8; 8]; open spec fn out_view(o: [u8; 8]) -> Seq<u8> { o@ } open spec fn le_spec(self) -> Seq<u8> { f64_le(self) }
+    #[verifier::external_body] fn to_le_bytes_shim(self) -> (r: [u8; 8]) { self.to_le_bytes() } }
